@@ -317,3 +317,138 @@ class serialize_any_count:
 
     def prepare(self):
         return {'self': _Script(commands=list(self.fields['commands']))}
+
+
+# --- signature opcodes: stack discipline and signature / key matching order (signature decoding and ECDSA abstract) ------------------------
+from pyvc.values import Sym, SBool, SBytes
+from bitcoinlib.keys import Signature as _Signature
+
+
+def sig_check(message, sig, pubkey):
+    """`sig` (as it stands in the script: DER signature + hash type byte) is a valid signature of `message` under `pubkey`.  Under the verifier
+    an uninterpreted predicate; Signature.parse_bytes(sig).verify(message, pubkey) is ASSUMED to compute exactly this predicate for well-formed
+    signatures (signature decoding and ECDSA verification are the subject of C13 / C02).  Natively: strict DER decoding and the pure-Python
+    ECDSA of the hand-off harness (independent of the library)."""
+    from bounded.c10_handoff import _der, ecdsa_ok
+    d = _der(sig)
+    return d is not None and ecdsa_ok(message, d[0], d[1], pubkey)
+
+
+def _sample_multisig(n, m):
+    def sample(rng):
+        from bitcoinlib.keys import Key, sign
+        msg = bytes(rng.getrandbits(8) for _ in range(32))
+        ks = [Key(rng.randrange(1, 2 ** 200)) for _ in range(n)]
+        pks = [k.public_byte for k in ks]
+        order = sorted(rng.sample(range(n), m)) if rng.random() < 0.6 else [rng.randrange(n) for _ in range(m)] if n else []
+        sigs = []
+        for i in order:
+            wrong = rng.random() < 0.2
+            sigs.append(sign(bytes(32) if wrong else msg, ks[i]).as_der_encoded())
+        base = [bytes(rng.getrandbits(8) for _ in range(rng.randrange(3))) for _ in range(rng.choice([0, 1, 1, 2]))]
+        num = lambda v: b'' if v == 0 else bytes([v])
+        return {'self': base + sigs + [num(m)] + pks + [num(n)], 'message': msg}
+    return sample
+
+
+class _AbsSig(Sym):
+    pytype = _Signature
+
+    def __init__(self, raw):
+        self.raw = raw
+
+
+def _sigops_models(reg):
+    """Signature.parse_bytes(sig) on symbolic bytes yields an abstract signature whose verify(message, key) is the uninterpreted predicate SigCheck(message, sig, key); parsing never raises (well-formed signatures assumed)"""
+    from contracts import external
+    from pyvc.ctx import Unsupported
+
+    def m_parse(ip, args, kwargs):
+        raw = args[0]
+        if not isinstance(raw, (SBytes, bytes)):
+            raise Unsupported('Signature.parse_bytes(%r)' % (raw,))
+        return _AbsSig(raw)
+
+    def m_method(ip, obj, name, args, kwargs):
+        if name == 'verify':
+            msg = args[0] if args else kwargs.get('txid')
+            pk = args[1] if len(args) > 1 else kwargs.get('public_key')
+            return SBool(external.uf(ip.ctx, 'SigCheck', [msg, obj.raw, pk], z3.BoolSort()))
+        raise Unsupported('Signature.%s on an abstract signature' % name)
+
+    def m_sig_check(ip, args, kwargs):
+        return SBool(external.uf(ip.ctx, 'SigCheck', [args[0], args[1], args[2]], z3.BoolSort()))
+
+    reg.models[_Signature.parse_bytes] = m_parse
+    reg.models[sig_check] = m_sig_check
+    reg.sym_methods[_AbsSig] = m_method
+
+
+def _sigop_contract(name, spec_fn, stack_t=None, requires=None, bounded=None):
+    def ensures(old_self, self, message, result):
+        exp = spec_fn(list(old_self), lambda s, k: sig_check(message, s, k))
+        if exp is None:
+            return result is False
+        return result is not False and list(self) == exp
+
+    def raises_cond(old_self, message):
+        return spec_fn(list(old_self), lambda s, k: sig_check(message, s, k)) is None
+
+    d = {'params': {'self': stack_t or _StackT, 'message': Bytes(32)}, 'ensures': ensures, 'raises': {Exception: raises_cond}, 'native_skip': True,
+         'local_models': _sigops_models, 'bounded': bounded,
+         '__doc__': 'Stack.%s: stack effect and matching order of %s with an abstract signature check' % (name, name[3:].upper())}
+    if requires is not None:
+        d['requires'] = requires
+    return contract('bitcoinlib.scripts.Stack.' + name, props=('C19',))(type(name, (), d))
+
+
+_sigop_contract('op_checksig', sp.op_checksig)
+_sigop_contract('op_checksigverify', sp.op_checksigverify)
+
+
+class _MultisigStackT(T):
+    """any stack (any depth, any items) with  sig_1 .. sig_m <m> pk_1 .. pk_n <n>  on top; the counts are the minimal script numbers"""
+
+    def __init__(self, n, m):
+        self.n, self.m = n, m
+
+    def fresh(self, ctx, name):
+        from pyvc.values import SList
+        base = _StackT.fresh(ctx, name)
+        num = lambda v: b'' if v == 0 else bytes([v])
+        tail = ([Bytes.fresh(ctx, '%s.sig%d' % (name, i + 1)) for i in range(self.m)] + [num(self.m)]
+                + [Bytes.fresh(ctx, '%s.pk%d' % (name, i + 1)) for i in range(self.n)] + [num(self.n)])
+        return SList(base.rid, base.n, tail, base.elem, base.cls, 0)
+
+
+def _multisig_case(opname, spec_fn, n, m):
+    def ensures(old_self, self, message, result):
+        exp = spec_fn(list(old_self), lambda s, k: sig_check(message, s, k))
+        if exp is None:
+            return result is False
+        return result is not False and list(self) == exp
+
+    def raises_cond(old_self, message):
+        return spec_fn(list(old_self), lambda s, k: sig_check(message, s, k)) is None
+
+    pin_fn = getattr(_pins, opname)
+
+    def pin_holds(old_self, self, message, result):
+        exp = pin_fn(list(old_self), lambda s, k: sig_check(message, s, k))
+        if exp is None:
+            return result is False
+        return result is not False and list(self) == exp
+
+    d = {'params': {'self': _MultisigStackT(n, m), 'message': Bytes(32)}, 'ensures': ensures, 'raises': {Exception: raises_cond},
+         'prepare': lambda self, message: {'self': Stack(self)}, 'sample': _sample_multisig(n, m), 'no_history': True,
+         'local_models': _sigops_models, 'kwargs': {'data': None}, 'pins': {'F-C19-checkmultisig-missing-dummy': pin_holds},
+         'bounded': 'n = %d keys, m = %d signatures (one case per n <= 3, m <= n); counts minimally encoded' % (n, m),
+         '__doc__': 'Stack.%s for %d-of-%d on top of any stack: items removed, matching order and result as in consensus (signature check abstract)' % (opname, m, n)}
+    return contract('bitcoinlib.scripts.Stack.' + opname, case='n%d-m%d' % (n, m), props=('C19', 'C10'))(type('%s_n%d_m%d' % (opname, n, m), (), d))
+
+
+MULTISIG_CASES = []
+for _nn in range(0, 4):
+    for _mm in range(0, _nn + 1):
+        MULTISIG_CASES.append(_multisig_case('op_checkmultisig', sp.op_checkmultisig, _nn, _mm)._contract.key)
+        MULTISIG_CASES.append(_multisig_case('op_checkmultisigverify', sp.op_checkmultisigverify, _nn, _mm)._contract.key)
